@@ -128,8 +128,14 @@ def validate(ctx, traces, label, prop=None):
     rejected = ctx.validate("ObservationTrace", stripped, label=label, corrupt=corrupt_for(prop), cfg=cfg)
     if not rejected:
         return []
-    idx = [k for k, _ in rejected][:60]
-    diag = tlc.diagnose("ObservationTrace", [stripped[k] for k in idx], tag=f"{ctx.prop}_{label}", cfg=cfg)
+    # every rejected trace is diagnosed (known findings are matched on the diagnosed clause), in chunks
+    idx = [k for k, _ in rejected][:600]
+    diag = {}
+    for c0 in range(0, len(idx), 60):
+        part = idx[c0:c0 + 60]
+        dg = tlc.diagnose("ObservationTrace", [stripped[k] for k in part], tag=f"{ctx.prop}_{label}_{c0}", cfg=cfg)
+        for pos, val in dg.items():
+            diag[c0 + pos] = val
     out = []
     for pos, k in enumerate(idx, start=1):
         l, exp = diag.get(pos, (dict(rejected)[k], None))
@@ -142,7 +148,7 @@ def validate(ctx, traces, label, prop=None):
         ctx.violation(sig, text + f" [{traces[k]['meta']}]", {"kind": "observation", "ocfg": traces[k]["ocfg"],
                                                              "meta": traces[k]["meta"]}, info)
         out.append((k, sig))
-    for k, _ in rejected[60:]:
+    for k, _ in rejected[600:]:
         ctx.violation("trace.rejected", "further rejected trace", {"kind": "observation", "ocfg": traces[k]["ocfg"],
                                                                    "meta": traces[k]["meta"]},
                       {"mode": traces[k]["ocfg"]["mode"], "dask": bool(traces[k]["ocfg"]["dask"])})
